@@ -41,7 +41,14 @@ class RecWorld:
         self.calls.append((src, dest, attrs, kw))
 
 
-def run_randomly(ns, nd, evenly, maxc, chooser):
+def _shaped(items, shape):
+    """the documented argument type is "iterables containing Entity instances": lists, tuples,
+    sets (connect_randomly itself returns one), one-shot iterators"""
+    return {"list": list, "tuple": tuple, "set": set, "iter": iter,
+            "gen": lambda x: (y for y in x)}[shape](items)
+
+
+def run_randomly(ns, nd, evenly, maxc, chooser, shapes=("list", "list")):
     src = [f"s{i}" for i in range(ns)]
     dst = [f"d{i}" for i in range(nd)]
     w = RecWorld()
@@ -53,7 +60,9 @@ def run_randomly(ns, nd, evenly, maxc, chooser):
             kw["max_connects"] = maxc
         handed = list(dst)          # the caller's own list object
         try:
-            ret = mutil.connect_randomly(w, src, handed, "a", ("b", "c"), **kw)
+            ret = mutil.connect_randomly(
+                w, src if shapes[0] == "list" else _shaped(src, shapes[0]),
+                handed if shapes[1] == "list" else _shaped(dst, shapes[1]), "a", ("b", "c"), **kw)
             exc = None
         except Exception as e:  # noqa: BLE001
             ret, exc = None, e
@@ -62,10 +71,12 @@ def run_randomly(ns, nd, evenly, maxc, chooser):
     return src, dst, w.calls, ret, exc, handed
 
 
-def judge_randomly(ns, nd, evenly, maxc, choices, res):
+def judge_randomly(ns, nd, evenly, maxc, choices, res, shapes=("list", "list")):
     src, dst, calls, ret, exc, handed = res
     case = dict(fn="connect_randomly", ns=ns, nd=nd, evenly=evenly,
                 max_connects=None if maxc == INF else maxc, choices=choices)
+    if tuple(shapes) != ("list", "list"):
+        case["shapes"] = list(shapes)
     out = []
 
     def add(kind, msg):
@@ -151,8 +162,9 @@ def replay(doc):
         from .choices import Chooser
         maxc = INF if c["max_connects"] is None else c["max_connects"]
         ch = Chooser(c["choices"])
-        res = run_randomly(c["ns"], c["nd"], c["evenly"], maxc, ch)
-        v = judge_randomly(c["ns"], c["nd"], c["evenly"], maxc, c["choices"], res)
+        shapes = tuple(c.get("shapes", ("list", "list")))
+        res = run_randomly(c["ns"], c["nd"], c["evenly"], maxc, ch, shapes)
+        v = judge_randomly(c["ns"], c["nd"], c["evenly"], maxc, c["choices"], res, shapes)
     for x in v:
         print("REPRODUCED", x["kind"], x["msg"][:300])
     return 1 if v else 0
@@ -188,6 +200,22 @@ def check(prop, tier):
                                           returned=sorted(res[3]) if res[3] is not None else None)
                     if k > 1:
                         nontriv += 1
+    # other iterables than lists as src_set / dest_set (smaller sizes, every random outcome)
+    for shapes in [(a, "list") for a in ("tuple", "set", "iter", "gen")] + \
+                  [("list", b) for b in ("tuple", "set", "iter", "gen")] + [("set", "set"), ("gen", "gen")]:
+        for ns in range(0, 4):
+            for nd in range(1, 4):
+                for evenly, maxc in ((True, INF), (False, INF), (False, 2)):
+                    if not evenly and ns > nd * maxc:
+                        continue
+                    cases += 1
+                    for choices, res in all_executions(
+                            lambda ch: run_randomly(ns, nd, evenly, maxc, ch, shapes)):
+                        execs += 1
+                        for v in judge_randomly(ns, nd, evenly, maxc, choices, res, shapes):
+                            kinds[v["kind"]] = kinds.get(v["kind"], 0) + 1
+                            if kinds[v["kind"]] <= 5:
+                                rep.report(v, dict(kind="call", module="mc.enum_c18", case=v["case"]))
     for ns in range(0, 5):
         for ar in (False, True):
           for shape in ("list", "tuple", "iter", "chain", "gen"):
